@@ -183,8 +183,15 @@ def run(ck, prog):
             ck.ob("R10.1", "result:%s" % name, got in (LI_RESULT[name], "?") or (got == "const"),
                   "%s returns %s" % (name, got),
                   msg="LineIndex::%s returns a value in %s, expected %s" % (name, got, LI_RESULT[name]))
-        for pr in u.problems:
-            ck.ob("R10.1", "mix:%s:%s" % (name, pr), False, msg="LineIndex::%s: %s" % (name, pr))
+        # every integer local is evaluated, so that arithmetic whose result only flows on through conversions
+        # (`u32::try_from(col).expect(..)`) is still seen
+        for l, info in enumerate(b.raw.get("locals", [])):
+            if re.match(r"^(u|i)(8|16|32|64|128|size)$|^\((u|i)(8|16|32|64|size), bool\)$", info.get("t", "")):
+                u.local(l)
+        for pr in sorted(set(u.problems)):
+            ck.ob("R10.1", "mix:%s:%s" % (name, pr), False,
+                  msg="LineIndex::%s: %s (values counted in different units are combined: wrong for text with multi-byte or "
+                      "astral characters)" % (name, pr))
     ck.floor("R10.1", "unit-checked ropey index arguments", n_calls, 10)
 
     # to_proto::position / from_proto::position
